@@ -131,6 +131,29 @@ theorem b64decode_non_ascii : b64Decode [Char.ofNat 0xff] = .error "ValueError" 
 
 theorem wwwAuthenticate_total_safe (s : Str) : Safe (wwwFromHeader s) := wwwFromHeader_safe s
 
+/-! ### the descriptor layer of `Request` -/
+
+/-- `_DictAccessorProperty.__get__` (behind `header_property` / `environ_property`) returns the
+default or the loaded value whenever `load_func` raises nothing but ValueError / TypeError. -/
+theorem headerProperty_total_safe {α : Type} (load : Str → Except String α) (dflt : α) (hdr : Option Str)
+    (h : ∀ v, OnlyRaises ["ValueError", "TypeError"] (load v)) : Safe (headerProperty load dflt hdr) :=
+  headerProperty_safe load dflt hdr h
+
+example : ∀ v, OnlyRaises ["ValueError", "TypeError"] ((pyInt v).map some) := fun v =>
+  onlyRaises_mono (onlyRaises_map _ (pyInt_onlyRaises v)) (by intro e he; simp at he; subst he; simp)
+
+/-- the hypothesis is needed: a loader that raises another class lets it through — which is exactly
+how `Request.date` (loader `parse_date`, OverflowError, finding F07f) escapes the descriptor -/
+theorem headerProperty_needs_caught_class :
+    headerProperty (fun _ => (.error "OverflowError" : Except String Nat)) 0 (some []) = .error "OverflowError" := by
+  decide
+
+/-- `Request.max_forwards`, `Request.content_length` (`get_content_length`: `max(0, _plain_int(...))`
+inside `try`), `Request.access_control_request_headers` return a value for every header text. -/
+theorem request_scalar_attrs_total_safe (a b : Option Str) :
+    Safe (requestMaxForwards a) ∧ Safe (getContentLength a b) ∧ Safe (requestAccessControlRequestHeaders a) :=
+  ⟨requestMaxForwards_safe a, getContentLength_safe a b, requestAcrh_safe a⟩
+
 /-
 -- OPEN (known finding F07d): `Request.url/base_url/host_url/root_url/url_root` pass the Host header
 --   through `urllib.parse.urlsplit(...).port/.hostname`, which raise ValueError for a non-numeric or
@@ -140,8 +163,9 @@ theorem wwwAuthenticate_total_safe (s : Str) : Safe (wwwFromHeader s) := wwwFrom
 --   `email.utils.parsedate_to_datetime`, which raises OverflowError for numbers that do not fit a
 --   C int / long (year, hour, or zone such as `+99999999999999999999`). `email.utils` is Python's;
 --   the general date parser is not modelled (only its IMF-fixdate restriction, Model/Date.lean).
--- OPEN: P1 `Request` attribute layer as Lean compositions (`_DictAccessorProperty.__get__`); the
---   attributes are exercised on the real code by stream `hostile` (every public attribute).
+-- OPEN: the remaining `Request` attributes are one header lookup followed by one of the parsers
+--   above (their safety is the parser's), or go through cookies / form parsing / URL assembly, which
+--   are other properties' models; all of them are exercised on the real code by stream `hostile`.
 -/
 
 end Wz.Props.C07
